@@ -201,6 +201,11 @@ func c17E2E(w *emit.Writer, plans []c17E2EPlan) {
 	env := c1719NewEnv()
 	defer env.close()
 	for i, p := range plans {
+		if c17ThrottleStuck.Load() {
+			// Issue would block on rateLimitersMu without honouring its context
+			w.Hist("e2e_throttle: skipped_throttle_is_stuck")
+			return
+		}
 		c17E2EEmit(w, p, c17E2ERound(env, p), i)
 	}
 }
